@@ -1,6 +1,11 @@
 import YaqsModel.Lemmas.Krylov
 import YaqsModel.Lemmas.Heff
 import YaqsModel.Lemmas.LanczosH
+import YaqsModel.Lemmas.KrylovPoly
+import YaqsModel.Lemmas.KrylovBound
+import YaqsModel.Lemmas.KrylovShift
+import YaqsModel.Lemmas.LanczosRefine
+import YaqsModel.Lemmas.HeffBlocks
 import Mathlib.Algebra.Star.Rat
 import Mathlib.Tactic.LinearCombination
 import Mathlib.LinearAlgebra.Matrix.Notation
@@ -718,3 +723,445 @@ example : (!![2, Complex.I; -Complex.I, 3] : Matrix (Fin 2) (Fin 2) ℂ)ᴴ = !!
     | j + 1 => simp
 
 end Yaqs.Krylov
+
+
+/-! ## 8. polynomial exactness of the Krylov basis and an a-priori accuracy bound (xp19 extension)
+
+  The accuracy clause of the property ("returns `exp(-i dt A) v` to high accuracy … whenever the spectral width times `|dt|`
+  is moderate") was only cited (Hochbruck–Lubich).  This section proves a genuine — weaker, but explicit — a-priori bound:
+
+  * `krylov_poly_exact`: the `m` Lanczos vectors of `expm_krylov` reproduce `p(A) v` exactly for every polynomial of degree
+    `< m` through the reconstruction the code uses (`V p(T) e₁`); `arnoldi_poly_exact` the same for `expm_arnoldi`.
+  * `krylov_error_identity` / `krylov_error_bound`: subtracting the Taylor polynomial of degree `m − 1` on both sides leaves the two
+    Taylor remainders, each bounded by the tail `tail_m(x) = Σ_{j ≥ m} x^j / j!` of the exponential series:
+        `‖exp(−iτA) vec − ‖vec‖ · V exp(−iτT) e₁‖₂ ≤ ‖vec‖ · (tail_m(|τ|‖A‖₂) + tail_m(|τ|‖T‖₂)) ≤ 2 ‖vec‖ · tail_m(|τ|‖A‖₂)`.
+  * `krylov_error_bound_code`: the same for the spectral formula `V Q diag(e^{−iτλ}) Qᴴ e₁` of `_compute_krylov_result`.
+  * `krylov_error_default`: `|τ|‖A‖₂ ≤ 2`, `m = 25` (the default `max_lanczos_iterations`): error `≤ 4·10⁻¹⁷ ‖vec‖`.
+  * `lanczos_shift_invariant` / `krylov_error_bound_shift` / `krylov_error_default_width`: the loop and the error are invariant under real shifts
+    `A ↦ A − c·1`, so `‖A‖` may be replaced by `‖A − c·1‖` for any real `c` — half the spectral width for the midpoint.
+  * `arnoldi_error_bound`: the same two-remainder argument for `expm_arnoldi` (any matrix).
+
+  Still cited, not proved: the sharper Hochbruck–Lubich bound (decay governed by a *quarter* of the spectral width instead of
+  `‖A‖`), and everything about rounding (loss of orthogonality in floating point). -/
+namespace Yaqs.Krylov
+
+open Matrix
+open scoped Matrix.Norms.L2Operator
+
+/-- **C19.8 `krylov_poly_exact`** (accuracy clause, exact part).  For the `m` vectors of a run of the Lanczos loop of `expm_krylov`
+    (`LanczosRun`: the three-term recurrence `A v_j = β_{j-1} v_{j-1} + α_j v_j + β_j v_{j+1}`, `j + 1 < m`) over any field with an
+    involution and **every polynomial `p` of degree `< m`**: `p(A) (c • v_0) = c • V p(T) e₁` with `V = [v_0 … v_{m-1}]` and `T` the
+    tridiagonal matrix of `alpha`, `beta` the code hands to `eigh_tridiagonal` — so if `f = p`, the reconstruction of
+    `_compute_krylov_result` is exact.  Only the recurrence is used: neither `Aᴴ = A` nor orthogonality of the vectors
+    (in floating point the recurrence holds to rounding error even after orthogonality is lost). -/
+theorem krylov_poly_exact {n K : Type*} [Fintype n] [DecidableEq n] [Field K] [StarRing K] (A : Matrix n n K)
+    (v : ℕ → n → K) (α β : ℕ → K) (m : ℕ) (h : LanczosRun A v α β m) (p : Polynomial K) (hp : p.natDegree < m) (c : K) :
+    (Polynomial.aeval A p) *ᵥ (c • v 0) =
+      c • ((Matrix.of fun (x : n) (i : Fin m) => v i x) *ᵥ
+        ((Polynomial.aeval (Matrix.of fun (i j : Fin m) => tri α β i j) p) *ᵥ
+          Pi.single (⟨0, Nat.lt_of_le_of_lt (Nat.zero_le _) hp⟩ : Fin m) (1 : K))) := by
+  have hm : 0 < m := Nat.lt_of_le_of_lt (Nat.zero_le _) hp
+  have key := krylov_aeval A (basisMat v m) (triMat α β m) (triMat_hess α β m) (lanczos_col A v α β m h) hm p hp
+  rw [basisMat_single] at key
+  rw [mulVec_smul, key]
+  rfl
+
+/-- **C19.8 `krylov_powers_exact`** the same for explicit sums `Σ_{k<N} c_k A^k`, `N ≤ m` — the Taylor partial sums of
+    `exp(-i dt A)` up to degree `m − 1` are reproduced exactly by the small problem. -/
+theorem krylov_powers_exact {n K : Type*} [Fintype n] [DecidableEq n] [Field K] [StarRing K] (A : Matrix n n K)
+    (v : ℕ → n → K) (α β : ℕ → K) (m : ℕ) (hm : 0 < m) (h : LanczosRun A v α β m) (c : ℕ → K) (N : ℕ) (hN : N ≤ m) :
+    (∑ k ∈ Finset.range N, c k • A ^ k) *ᵥ v 0 =
+      (Matrix.of fun (x : n) (i : Fin m) => v i x) *ᵥ
+        ((∑ k ∈ Finset.range N, c k • (Matrix.of fun (i j : Fin m) => tri α β i j) ^ k) *ᵥ
+          Pi.single (⟨0, hm⟩ : Fin m) (1 : K)) := by
+  have key := krylov_powers A (basisMat v m) (triMat α β m) (triMat_hess α β m) (lanczos_col A v α β m h) hm c N hN
+  rw [basisMat_single] at key
+  exact key
+
+/-- **C19.8 `arnoldi_poly_exact`** (Arnoldi analogue, `expm_arnoldi`): if `A v_j = Σ_{i ≤ j+1} h[i,j] v_i` for `j + 1 < m` (what modified
+    Gram–Schmidt produces), then `p(A) (c • v_0) = c • V p(H) e₁` for every polynomial of degree `< m`, `H = h[:m, :m]` upper
+    Hessenberg — for any matrix `A`, Hermitian or not. -/
+theorem arnoldi_poly_exact {n K : Type*} [Fintype n] [DecidableEq n] [CommRing K] (A : Matrix n n K)
+    (v : ℕ → n → K) (hh : ℕ → ℕ → K) (m : ℕ) (h : ArnoldiRun A v hh m) (p : Polynomial K) (hp : p.natDegree < m) (c : K) :
+    (Polynomial.aeval A p) *ᵥ (c • v 0) =
+      c • ((Matrix.of fun (x : n) (i : Fin m) => v i x) *ᵥ
+        ((Polynomial.aeval (Matrix.of fun (i j : Fin m) => if (i : ℕ) ≤ (j : ℕ) + 1 then hh i j else 0) p) *ᵥ
+          Pi.single (⟨0, Nat.lt_of_le_of_lt (Nat.zero_le _) hp⟩ : Fin m) (1 : K))) := by
+  have hm : 0 < m := Nat.lt_of_le_of_lt (Nat.zero_le _) hp
+  have key := krylov_aeval A (Matrix.of fun (x : n) (i : Fin m) => v i x) (hessMat hh m) (hessMat_hess hh m)
+    (arnoldi_col A v hh m h) hm p hp
+  have h0 : (Matrix.of fun (x : n) (i : Fin m) => v i x) *ᵥ Pi.single (⟨0, hm⟩ : Fin m) (1 : K) = v 0 := by
+    rw [mulVec_single_one]; rfl
+  rw [h0] at key
+  rw [mulVec_smul, key]
+  rfl
+
+/-- non-vacuity and sharpness: for `A = [[2,1],[1,3]]`, `v₀ = e₁` (the run of section 7 with `m = 2`) the degree-1 polynomial `X` is
+    reproduced (`A v₀ = V T e₁ = (2, 1)`), while with `m = 1` vectors (`V = [e₁]`, `T = [2]`) the same polynomial — degree `= m` — is not:
+    `A v₀ = (2, 1) ≠ (2, 0) = V T e₁`.  The bound `natDegree p < m` cannot be relaxed. -/
+example :
+    ((!![2, 1; 1, 3] : Matrix (Fin 2) (Fin 2) ℚ) *ᵥ ![1, 0] =
+      (!![1, 0; 0, 1] : Matrix (Fin 2) (Fin 2) ℚ) *ᵥ ((!![2, 1; 1, 3] : Matrix (Fin 2) (Fin 2) ℚ) *ᵥ ![1, 0])) ∧
+    ((!![2, 1; 1, 3] : Matrix (Fin 2) (Fin 2) ℚ) *ᵥ ![1, 0] ≠
+      (!![1; 0] : Matrix (Fin 2) (Fin 1) ℚ) *ᵥ ((!![2] : Matrix (Fin 1) (Fin 1) ℚ) *ᵥ ![1])) := by
+  constructor <;> decide +kernel
+
+/-- an `ArnoldiRun` exists for a non-symmetric matrix: `A = [[1,2],[3,4]]`, `v₀ = e₁`, `v₁ = e₂`, `h = [[1, 2], [3, 4]]`, `m = 2` -/
+example : ArnoldiRun (!![1, 2; 3, 4] : Matrix (Fin 2) (Fin 2) ℚ)
+    (fun j => match j with | 0 => ![1, 0] | 1 => ![0, 1] | _ => 0)
+    (fun i j => match i, j with | 0, 0 => 1 | 1, 0 => 3 | 0, 1 => 2 | 1, 1 => 4 | _, _ => 0) 2 where
+  step := fun j hj => by
+    match j with
+    | 0 => decide +kernel
+
+/-- **C19.8 `exp_tail_closed_form`** the tail `tail_m(x) = Σ_{j ≥ m} x^j / j!` the bounds below are stated with: it equals
+    `e^x − Σ_{j<m} x^j / j!`, is non-negative and monotone on `x ≥ 0`, and is at most `x^m / m! · e^x` — for moderate `x` and `m = 25` it
+    is tiny (`tail_25(2) ≤ 2·10⁻¹⁷`). -/
+theorem exp_tail_closed_form (m : ℕ) (x : ℝ) (hx : 0 ≤ x) :
+    expTail m x = Real.exp x - ∑ j ∈ Finset.range m, x ^ j / (j.factorial : ℝ) ∧
+    0 ≤ expTail m x ∧ (∀ y, x ≤ y → expTail m x ≤ expTail m y) ∧
+    expTail m x ≤ x ^ m / (m.factorial : ℝ) * Real.exp x ∧
+    (x ≤ 2 → expTail 25 x ≤ 2 / 10 ^ 17) :=
+  ⟨expTail_eq m x, expTail_nonneg m hx, fun _ hy => expTail_mono m hx hy, expTail_le m hx, expTail_25_2 hx⟩
+
+/-- **C19.8 `krylov_error_identity`** (the algebraic error identity).  For a Lanczos run with `m ≥ 1` vectors over ℂ and every complex
+    step `z` (the code: `z = −i·dt`): the error of the Krylov approximation is the difference of the two Taylor remainders of order
+    `m` — `exp(zA) v₀ − V exp(zT) e₁ = R_m(zA) v₀ − V R_m(zT) e₁`, `R_m(X) = exp X − Σ_{j<m} X^j / j!` — because the Taylor polynomials
+    agree (`krylov_powers_exact`). -/
+theorem krylov_error_identity {n : Type*} [Fintype n] [DecidableEq n] (A : Matrix n n ℂ) (hA : Aᴴ = A)
+    (v : ℕ → n → ℂ) (α β : ℕ → ℂ) (m : ℕ) (hm : 0 < m) (h : LanczosRun A v α β m) (z : ℂ) :
+    NormedSpace.exp (z • A) *ᵥ v 0 -
+        (Matrix.of fun (x : n) (i : Fin m) => v i x) *ᵥ
+          (NormedSpace.exp (z • (Matrix.of fun (i j : Fin m) => tri α β i j)) *ᵥ Pi.single (⟨0, hm⟩ : Fin m) (1 : ℂ)) =
+      (NormedSpace.exp (z • A) - ∑ j ∈ Finset.range m, ((j.factorial : ℂ)⁻¹) • (z • A) ^ j) *ᵥ v 0 -
+        (Matrix.of fun (x : n) (i : Fin m) => v i x) *ᵥ
+          ((NormedSpace.exp (z • (Matrix.of fun (i j : Fin m) => tri α β i j)) -
+            ∑ j ∈ Finset.range m, ((j.factorial : ℂ)⁻¹) • (z • (Matrix.of fun (i j : Fin m) => tri α β i j)) ^ j) *ᵥ
+              Pi.single (⟨0, hm⟩ : Fin m) (1 : ℂ)) := by
+  have key := (krylov_exp_bound A (basisMat v m) (triMat α β m) (triMat_hess α β m) (lanczos_col A v α β m h) hm
+    (basis_gram A hA v α β m h) z).1
+  rw [basisMat_single] at key
+  exact key
+
+/-- **C19.8 `krylov_error_bound`** (accuracy clause — a genuine a-priori bound).  Hermitian `A`, a run of the Lanczos loop of
+    `expm_krylov` with `m ≥ 1` vectors started from `vec = nrm • v₀` (`v₀` unit, `nrm = ‖vec‖`), real `τ = dt` of either sign.  In the
+    Euclidean norm, with `‖·‖` the spectral norm:
+      (1) `‖exp(−iτA) vec − nrm • V exp(−iτT) e₁‖ ≤ |nrm| · (tail_m(|τ|‖A‖) + tail_m(|τ|‖T‖))`,
+      (2) `‖T‖ ≤ ‖A‖`,
+      (3) hence `… ≤ |nrm| · 2 · tail_m(|τ|‖A‖)` — a bound in terms of the input alone: whenever `|τ|·‖A‖` is moderate and `m` is the
+          default 25, the error is far below rounding (`krylov_error_default`).
+    Weaker than Hochbruck–Lubich (which has `ρ = width/4` in place of `‖A‖`), but of the shape the property asks for. -/
+theorem krylov_error_bound {n : Type*} [Fintype n] [DecidableEq n] (A : Matrix n n ℂ) (hA : Aᴴ = A)
+    (v : ℕ → n → ℂ) (α β : ℕ → ℂ) (m : ℕ) (hm : 0 < m) (h : LanczosRun A v α β m) (τ nrm : ℝ) :
+    ‖(WithLp.toLp 2
+        (NormedSpace.exp ((-(Complex.I * (τ : ℂ))) • A) *ᵥ ((nrm : ℂ) • v 0) -
+          (nrm : ℂ) • ((Matrix.of fun (x : n) (i : Fin m) => v i x) *ᵥ
+            (NormedSpace.exp ((-(Complex.I * (τ : ℂ))) • (Matrix.of fun (i j : Fin m) => tri α β i j)) *ᵥ
+              Pi.single (⟨0, hm⟩ : Fin m) (1 : ℂ)))) : EuclideanSpace ℂ n)‖ ≤
+        |nrm| * (expTail m (|τ| * ‖A‖) + expTail m (|τ| * ‖(Matrix.of fun (i j : Fin m) => tri α β i j : Matrix _ _ ℂ)‖)) ∧
+    ‖(Matrix.of fun (i j : Fin m) => tri α β i j : Matrix _ _ ℂ)‖ ≤ ‖A‖ ∧
+    ‖(WithLp.toLp 2
+        (NormedSpace.exp ((-(Complex.I * (τ : ℂ))) • A) *ᵥ ((nrm : ℂ) • v 0) -
+          (nrm : ℂ) • ((Matrix.of fun (x : n) (i : Fin m) => v i x) *ᵥ
+            (NormedSpace.exp ((-(Complex.I * (τ : ℂ))) • (Matrix.of fun (i j : Fin m) => tri α β i j)) *ᵥ
+              Pi.single (⟨0, hm⟩ : Fin m) (1 : ℂ)))) : EuclideanSpace ℂ n)‖ ≤
+        |nrm| * (2 * expTail m (|τ| * ‖A‖)) := by
+  have h1 := lanczos_exp_bound A hA v α β m hm h (-(Complex.I * (τ : ℂ))) (nrm : ℂ)
+  have h2 := lanczos_exp_bound' A hA v α β m hm h (-(Complex.I * (τ : ℂ))) (nrm : ℂ)
+  rw [norm_neg_I_mul, Complex.norm_real, Real.norm_eq_abs] at h1 h2
+  exact ⟨h1, triMat_norm_le A hA v α β m h, h2⟩
+
+/-- **C19.8 `krylov_error_bound_code`** the same bound for the vector `_compute_krylov_result` actually returns:
+    `nrm • V (Q diag(e^{−iτλ}) Qᴴ) e₁` with `T = Q diag(λ) Qᴴ`, `Q` unitary (the output of `eigh_tridiagonal`; spec-tied each run). -/
+theorem krylov_error_bound_code {n : Type*} [Fintype n] [DecidableEq n] (A : Matrix n n ℂ) (hA : Aᴴ = A)
+    (v : ℕ → n → ℂ) (α β : ℕ → ℂ) (m : ℕ) (hm : 0 < m) (h : LanczosRun A v α β m) (τ nrm : ℝ)
+    (Q : Matrix (Fin m) (Fin m) ℂ) (lam : Fin m → ℂ) (hQ : Qᴴ * Q = 1)
+    (hT : (Matrix.of fun (i j : Fin m) => tri α β i j) = Q * diagonal lam * Qᴴ) :
+    ‖(WithLp.toLp 2
+        (NormedSpace.exp ((-(Complex.I * (τ : ℂ))) • A) *ᵥ ((nrm : ℂ) • v 0) -
+          (nrm : ℂ) • ((Matrix.of fun (x : n) (i : Fin m) => v i x) *ᵥ
+            ((Q * diagonal (fun i => Complex.exp (-(Complex.I * (τ : ℂ)) * lam i)) * Qᴴ) *ᵥ
+              Pi.single (⟨0, hm⟩ : Fin m) (1 : ℂ)))) : EuclideanSpace ℂ n)‖ ≤
+        |nrm| * (2 * expTail m (|τ| * ‖A‖)) := by
+  have h3 := (krylov_error_bound A hA v α β m hm h τ nrm).2.2
+  rw [hT, exp_spectral Q hQ lam] at h3
+  exact h3
+
+/-- **C19.8 `krylov_error_default`** (numeric instance of the accuracy clause).  With the default `max_lanczos_iterations = 25` vectors
+    and `|dt|·‖A‖₂ ≤ 2` the Krylov approximation differs from `exp(−i dt A) vec` by at most `4·10⁻¹⁷ ‖vec‖` — below binary64 rounding. -/
+theorem krylov_error_default {n : Type*} [Fintype n] [DecidableEq n] (A : Matrix n n ℂ) (hA : Aᴴ = A)
+    (v : ℕ → n → ℂ) (α β : ℕ → ℂ) (h : LanczosRun A v α β 25) (τ nrm : ℝ) (hτ : |τ| * ‖A‖ ≤ 2) :
+    ‖(WithLp.toLp 2
+        (NormedSpace.exp ((-(Complex.I * (τ : ℂ))) • A) *ᵥ ((nrm : ℂ) • v 0) -
+          (nrm : ℂ) • ((Matrix.of fun (x : n) (i : Fin 25) => v i x) *ᵥ
+            (NormedSpace.exp ((-(Complex.I * (τ : ℂ))) • (Matrix.of fun (i j : Fin 25) => tri α β i j)) *ᵥ
+              Pi.single (⟨0, by norm_num⟩ : Fin 25) (1 : ℂ)))) : EuclideanSpace ℂ n)‖ ≤ |nrm| * (4 / 10 ^ 17) := by
+  refine (krylov_error_bound A hA v α β 25 (by norm_num) h τ nrm).2.2.trans ?_
+  refine mul_le_mul_of_nonneg_left ?_ (abs_nonneg _)
+  have := expTail_25_2 (mul_nonneg (abs_nonneg τ) (norm_nonneg A)) hτ
+  linarith
+
+/-- **C19.8 `arnoldi_error_bound`** (Arnoldi analogue, any matrix `A`).  Orthonormal `V = [v_0 … v_{m-1}]`, `H = Vᴴ A V` upper Hessenberg with
+    `A V = V H` on all columns but the last (the relations `expm_arnoldi` builds): for every complex step `z`
+    `‖exp(zA) (c • v₀) − c • V exp(zH) e₁‖ ≤ |c| · 2 · tail_m(|z|‖A‖)`. -/
+theorem arnoldi_error_bound {n : Type*} [Fintype n] [DecidableEq n] {m : ℕ} (A : Matrix n n ℂ) (V : Matrix n (Fin m) ℂ)
+    (H : Matrix (Fin m) (Fin m) ℂ) (hm : 0 < m) (hV : Vᴴ * V = 1) (hH : H = Vᴴ * A * V)
+    (hess : ∀ i j : Fin m, (j : ℕ) + 1 < (i : ℕ) → H i j = 0)
+    (hcol : ∀ j : Fin m, (j : ℕ) + 1 < m → ∀ r, (A * V) r j = (V * H) r j) (z c : ℂ) :
+    ‖(WithLp.toLp 2
+        (NormedSpace.exp (z • A) *ᵥ (c • (V *ᵥ Pi.single (⟨0, hm⟩ : Fin m) (1 : ℂ))) -
+          c • (V *ᵥ (NormedSpace.exp (z • H) *ᵥ Pi.single (⟨0, hm⟩ : Fin m) (1 : ℂ)))) : EuclideanSpace ℂ n)‖ ≤
+      ‖c‖ * (2 * expTail m (‖z‖ * ‖A‖)) := by
+  have hb := (krylov_exp_bound A V H hess hcol hm hV z).2
+  have hHA : ‖H‖ ≤ ‖A‖ := by rw [hH]; exact l2norm_proj_le A V hV
+  have hmono := expTail_mono m (mul_nonneg (norm_nonneg z) (norm_nonneg H)) (mul_le_mul_of_nonneg_left hHA (norm_nonneg z))
+  have he : enorm (NormedSpace.exp (z • A) *ᵥ (c • (V *ᵥ Pi.single (⟨0, hm⟩ : Fin m) (1 : ℂ))) -
+      c • (V *ᵥ (NormedSpace.exp (z • H) *ᵥ Pi.single (⟨0, hm⟩ : Fin m) (1 : ℂ)))) ≤
+      ‖c‖ * (2 * expTail m (‖z‖ * ‖A‖)) := by
+    rw [mulVec_smul, ← smul_sub, enorm_smul]
+    refine mul_le_mul_of_nonneg_left ?_ (norm_nonneg c)
+    linarith
+  exact he
+
+/-- **C19.8 `lanczos_shift_invariant`** the Lanczos loop does not see a real shift of the operator: the run for `A − c·1` (`c` real) has the
+    same vectors and the same `beta`, and `alpha − c` — over any field with an involution. -/
+theorem lanczos_shift_invariant {n K : Type*} [Fintype n] [DecidableEq n] [Field K] [StarRing K] (A : Matrix n n K)
+    (v : ℕ → n → K) (α β : ℕ → K) (m : ℕ) (h : LanczosRun A v α β m) (c : K) (hc : star c = c) :
+    LanczosRun (A - c • (1 : Matrix n n K)) v (fun j => α j - c) β m ∧
+    (Matrix.of fun (i j : Fin m) => tri (fun j => α j - c) β i j) =
+      (Matrix.of fun (i j : Fin m) => tri α β i j) - c • (1 : Matrix (Fin m) (Fin m) K) :=
+  ⟨lanczosRun_shift A v α β m h c hc, triMat_shift α β m c⟩
+
+/-- **C19.8 `krylov_error_bound_shift`** (accuracy clause in terms of the spectral *width*).  Both `exp(−iτA) vec` and the Krylov
+    approximation pick up the same unit-modulus phase when `A` is shifted by a real multiple of the identity, so the bound of
+    `krylov_error_bound` holds with `‖A − c·1‖` for **every real `c`**:
+        `‖exp(−iτA) vec − nrm • V exp(−iτT) e₁‖ ≤ |nrm| · 2 · tail_m(|τ| · ‖A − c·1‖)`.
+    For `c` the midpoint of the spectrum, `‖A − c·1‖` is half the spectral width: the error is small "whenever the spectral width times `|dt|` is
+    moderate", wherever the spectrum sits. -/
+theorem krylov_error_bound_shift {n : Type*} [Fintype n] [DecidableEq n] (A : Matrix n n ℂ) (hA : Aᴴ = A)
+    (v : ℕ → n → ℂ) (α β : ℕ → ℂ) (m : ℕ) (hm : 0 < m) (h : LanczosRun A v α β m) (τ nrm c : ℝ) :
+    ‖(WithLp.toLp 2
+        (NormedSpace.exp ((-(Complex.I * (τ : ℂ))) • A) *ᵥ ((nrm : ℂ) • v 0) -
+          (nrm : ℂ) • ((Matrix.of fun (x : n) (i : Fin m) => v i x) *ᵥ
+            (NormedSpace.exp ((-(Complex.I * (τ : ℂ))) • (Matrix.of fun (i j : Fin m) => tri α β i j)) *ᵥ
+              Pi.single (⟨0, hm⟩ : Fin m) (1 : ℂ)))) : EuclideanSpace ℂ n)‖ ≤
+        |nrm| * (2 * expTail m (|τ| * ‖A - (c : ℂ) • (1 : Matrix n n ℂ)‖)) := by
+  have h1 := lanczos_exp_bound_shift A hA v α β m hm h τ c (nrm : ℂ)
+  rw [Complex.norm_real, Real.norm_eq_abs] at h1
+  exact h1
+
+/-- **C19.8 `krylov_error_default_width`** numeric instance: 25 vectors and `|dt| · ‖A − c·1‖₂ ≤ 2` for some real `c` (spectral width
+    times `|dt|` at most 4): error at most `4·10⁻¹⁷ ‖vec‖`. -/
+theorem krylov_error_default_width {n : Type*} [Fintype n] [DecidableEq n] (A : Matrix n n ℂ) (hA : Aᴴ = A)
+    (v : ℕ → n → ℂ) (α β : ℕ → ℂ) (h : LanczosRun A v α β 25) (τ nrm c : ℝ)
+    (hτ : |τ| * ‖A - (c : ℂ) • (1 : Matrix n n ℂ)‖ ≤ 2) :
+    ‖(WithLp.toLp 2
+        (NormedSpace.exp ((-(Complex.I * (τ : ℂ))) • A) *ᵥ ((nrm : ℂ) • v 0) -
+          (nrm : ℂ) • ((Matrix.of fun (x : n) (i : Fin 25) => v i x) *ᵥ
+            (NormedSpace.exp ((-(Complex.I * (τ : ℂ))) • (Matrix.of fun (i j : Fin 25) => tri α β i j)) *ᵥ
+              Pi.single (⟨0, by norm_num⟩ : Fin 25) (1 : ℂ)))) : EuclideanSpace ℂ n)‖ ≤ |nrm| * (4 / 10 ^ 17) := by
+  refine (krylov_error_bound_shift A hA v α β 25 (by norm_num) h τ nrm c).trans ?_
+  refine mul_le_mul_of_nonneg_left ?_ (abs_nonneg _)
+  have := expTail_25_2 (mul_nonneg (abs_nonneg τ) (norm_nonneg _)) hτ
+  linarith
+
+/-- non-vacuity of the hypotheses of `krylov_error_bound`: a one-vector run (`A = [[2, i], [−i, 3]]`, `m = 1`: `V = [e₁]`, `T = [2]`, the
+    result is `e^{−2iτ} e₁`) has error at most `2·tail_1(|τ|‖A‖) = 2(e^{|τ|‖A‖} − 1)` for every real `τ` -/
+example (τ : ℝ) :
+    ‖(WithLp.toLp 2
+        (NormedSpace.exp ((-(Complex.I * (τ : ℂ))) • (!![2, Complex.I; -Complex.I, 3] : Matrix (Fin 2) (Fin 2) ℂ)) *ᵥ
+            (((1 : ℝ) : ℂ) • ![1, 0]) -
+          ((1 : ℝ) : ℂ) • ((Matrix.of fun (x : Fin 2) (_ : Fin 1) => (![1, 0] : Fin 2 → ℂ) x) *ᵥ
+            (NormedSpace.exp ((-(Complex.I * (τ : ℂ))) •
+                (Matrix.of fun (i j : Fin 1) => tri (fun _ => (2 : ℂ)) (fun _ => (0 : ℂ)) i j)) *ᵥ
+              Pi.single (⟨0, Nat.one_pos⟩ : Fin 1) (1 : ℂ)))) : EuclideanSpace ℂ (Fin 2))‖ ≤
+      |(1 : ℝ)| * (2 * expTail 1 (|τ| * ‖(!![2, Complex.I; -Complex.I, 3] : Matrix (Fin 2) (Fin 2) ℂ)‖)) := by
+  have hA : (!![2, Complex.I; -Complex.I, 3] : Matrix (Fin 2) (Fin 2) ℂ)ᴴ = !![2, Complex.I; -Complex.I, 3] := by
+    ext i j; fin_cases i <;> fin_cases j <;> simp [Matrix.conjTranspose_apply]
+  have hrun : LanczosRun (!![2, Complex.I; -Complex.I, 3] : Matrix (Fin 2) (Fin 2) ℂ) (fun _ => ![1, 0])
+      (fun _ => (2 : ℂ)) (fun _ => (0 : ℂ)) 1 := by
+    refine ⟨fun h => absurd h (by omega), fun j hj => absurd hj (by omega), ?_, ?_, fun j hj => absurd hj (by omega), ?_, ?_⟩
+    · intro j _; simp [ip, Matrix.mulVec, dotProduct, Fin.sum_univ_succ]
+    · intro j _; simp [ip, dotProduct, Fin.sum_univ_succ]
+    · intro j; simp
+    · intro j; simp
+  exact (krylov_error_bound _ hA _ _ _ 1 Nat.one_pos hrun τ 1).2.2
+
+/-- … and the two-vector complex Hermitian run of section 7 (`v₀ = e₁`, `v₁ = −i e₂`, `alpha = (2, 3)`, `beta₀ = 1`) meets the hypotheses
+    with `m = 2`: degree-1 polynomials are exact and the error is at most `2·tail_2(|τ|‖A‖)` -/
+example (τ : ℝ) : ∃ (v : ℕ → Fin 2 → ℂ) (α β : ℕ → ℂ),
+    v 0 = ![1, 0] ∧ LanczosRun (!![2, Complex.I; -Complex.I, 3] : Matrix (Fin 2) (Fin 2) ℂ) v α β 2 ∧
+    ‖(WithLp.toLp 2
+        (NormedSpace.exp ((-(Complex.I * (τ : ℂ))) • (!![2, Complex.I; -Complex.I, 3] : Matrix (Fin 2) (Fin 2) ℂ)) *ᵥ
+            (((1 : ℝ) : ℂ) • v 0) -
+          ((1 : ℝ) : ℂ) • ((Matrix.of fun (x : Fin 2) (i : Fin 2) => v i x) *ᵥ
+            (NormedSpace.exp ((-(Complex.I * (τ : ℂ))) • (Matrix.of fun (i j : Fin 2) => tri α β i j)) *ᵥ
+              Pi.single (⟨0, Nat.two_pos⟩ : Fin 2) (1 : ℂ)))) : EuclideanSpace ℂ (Fin 2))‖ ≤
+      |(1 : ℝ)| * (2 * expTail 2 (|τ| * ‖(!![2, Complex.I; -Complex.I, 3] : Matrix (Fin 2) (Fin 2) ℂ)‖)) ∧
+    -- … and, by `krylov_error_bound_shift`, with the norm of the operator shifted by any real `c` (e.g. `c = 5/2`, the midpoint)
+    ∀ c : ℝ, ‖(WithLp.toLp 2
+        (NormedSpace.exp ((-(Complex.I * (τ : ℂ))) • (!![2, Complex.I; -Complex.I, 3] : Matrix (Fin 2) (Fin 2) ℂ)) *ᵥ
+            (((1 : ℝ) : ℂ) • v 0) -
+          ((1 : ℝ) : ℂ) • ((Matrix.of fun (x : Fin 2) (i : Fin 2) => v i x) *ᵥ
+            (NormedSpace.exp ((-(Complex.I * (τ : ℂ))) • (Matrix.of fun (i j : Fin 2) => tri α β i j)) *ᵥ
+              Pi.single (⟨0, Nat.two_pos⟩ : Fin 2) (1 : ℂ)))) : EuclideanSpace ℂ (Fin 2))‖ ≤
+      |(1 : ℝ)| * (2 * expTail 2 (|τ| * ‖(!![2, Complex.I; -Complex.I, 3] : Matrix (Fin 2) (Fin 2) ℂ) -
+        (c : ℂ) • (1 : Matrix (Fin 2) (Fin 2) ℂ)‖)) := by
+  have hA : (!![2, Complex.I; -Complex.I, 3] : Matrix (Fin 2) (Fin 2) ℂ)ᴴ = !![2, Complex.I; -Complex.I, 3] := by
+    ext i j; fin_cases i <;> fin_cases j <;> simp [Matrix.conjTranspose_apply]
+  have hrun : LanczosRun (!![2, Complex.I; -Complex.I, 3] : Matrix (Fin 2) (Fin 2) ℂ)
+      (fun j => match j with | 0 => ![1, 0] | 1 => ![0, -Complex.I] | _ => 0)
+      (fun j => match j with | 0 => 2 | 1 => 3 | _ => 0) (fun j => match j with | 0 => 1 | _ => 0) 2 := by
+    refine ⟨?_, ?_, ?_, ?_, ?_, ?_, ?_⟩
+    · intro _; ext i; fin_cases i <;> simp
+    · intro j hj; omega
+    · intro j hj
+      match j with
+      | 0 => simp [ip, Matrix.mulVec, dotProduct, Fin.sum_univ_succ]
+      | 1 =>
+        simp [ip, Matrix.mulVec, dotProduct, Fin.sum_univ_succ]
+        linear_combination (3 : ℂ) * Complex.I_mul_I
+    · intro j hj
+      match j with
+      | 0 => simp [ip, dotProduct, Fin.sum_univ_succ]
+      | 1 => simp [ip, dotProduct, Fin.sum_univ_succ]
+    · intro j hj
+      match j with
+      | 0 => simp
+    · intro j
+      match j with
+      | 0 => simp
+      | 1 => simp
+      | j + 2 => simp
+    · intro j
+      match j with
+      | 0 => simp
+      | j + 1 => simp
+  exact ⟨_, _, _, rfl, hrun, (krylov_error_bound _ hA _ _ _ 2 Nat.two_pos hrun τ 1).2.2,
+    fun c => krylov_error_bound_shift _ hA _ _ _ 2 Nat.two_pos hrun τ 1 c⟩
+
+end Yaqs.Krylov
+
+
+/-! ## 9. the executable recurrences of the driver refine the relational specification (xp19 extension)
+
+  `Driver/Krylov.lean` answers the requests `lanczosc` / `lanczosrat` (value ties `ratc` / `rat` of the harness: `alpha_j`, `beta_j²` of the
+  real `expm_krylov` run on dyadic matrices) with `lanczosC` (`Model/LanczosH.lean`) and `lanczosRat` (`Model/Krylov.lean`).  The theorems of
+  sections 5, 7 and 8 are about the relation `LanczosRun`.  This section links the two: what the executable loop returns *are* the
+  coefficients of a `LanczosRun` for the matrix and the start vector it was given. -/
+namespace Yaqs.Krylov
+
+open Matrix
+
+/-- **C19.9 `lanczosC_is_run`** (refinement).  Let `a` be an `n × n` list matrix over ℚ(i) that is Hermitian entry by entry, `v` a start
+    vector of length `n`, and suppose `lanczosC a v m` ran `m` steps without an exact breakdown (it returned `m` values `alpha`).  Then,
+    over ℂ, there is a run of the Lanczos loop of `expm_krylov` (`LanczosRun`) for the same matrix with `m` vectors, whose first vector
+    is `v` normalised, whose `α_j` are the returned `alpha[j]` and whose `β_j²` are the returned `betaSq[j]` (`j < m`).  Hence everything
+    proved about a `LanczosRun` — `lanczos_projection`, `krylov_poly_exact`, `krylov_error_bound` — holds for the numbers the driver prints
+    (and which the harness compares with `alpha`, `beta**2` of the real run). -/
+theorem lanczosC_is_run (n : ℕ) (a : List (List CRat)) (v : List CRat) (m : ℕ)
+    (ha : a.length = n) (hrows : ∀ row ∈ a, row.length = n) (hv : v.length = n)
+    (hherm : ∀ i j, i < n → j < n → (a.getD i []).getD j 0 = CRat.conj ((a.getD j []).getD i 0))
+    (hlen : (lanczosC a v m).alpha.length = m) :
+    ∃ (vv : ℕ → Fin n → ℂ) (α β : ℕ → ℂ),
+      (toMat n a)ᴴ = toMat n a ∧ LanczosRun (toMat n a) vv α β m ∧
+      (0 < m → ∃ s : ℝ, 0 < s ∧ (s : ℂ) • vv 0 = toVec n v) ∧
+      (∀ j, j < m → α j = (((lanczosC a v m).alpha.getD j 0 : ℚ) : ℂ)) ∧
+      (∀ j, j < m → β j ^ 2 = (((lanczosC a v m).betaSq.getD j 0 : ℚ) : ℂ)) :=
+  lanczosC_run_exists n a v m ha hrows hv hherm hlen
+
+/-- **C19.9 `lanczosC_loop_spec`** (the loop itself).  `lanczosCLoop` started from any accumulator state is the iteration of one step
+    function `stepC` (the loop body: `w = A u`, `a = Re⟨u, w⟩ / N`, `w −= a u`, `w −= (N / N_prev) u_prev`): if it returns `m` values, no
+    `N_j = ⟨u_j, u_j⟩` vanished, `alpha[i] = Re⟨u_i, A u_i⟩ / N_i` and `betaSq[i] = N_{i+1} / N_i` along that iteration; and it returns
+    fewer than `m` values exactly when it met an exact breakdown `N_j = 0`. -/
+theorem lanczosC_loop_spec (a : List (List CRat)) (m : ℕ) (st : LState)
+    (hlen : (lanczosCLoop a m st.1 st.2).alpha.length = m) :
+    (∀ i, i < m → nUOf (iterC a i st) ≠ 0) ∧
+    (∀ i, i < m → (lanczosCLoop a m st.1 st.2).alpha.getD i 0 = ajOf a (iterC a i st)) ∧
+    (∀ i, i < m → (lanczosCLoop a m st.1 st.2).betaSq.getD i 0 = nUOf (iterC a (i + 1) st) / nUOf (iterC a i st)) :=
+  lanczosCLoop_spec a m st hlen
+
+/-- **C19.9 `lanczosRat_is_lanczosC`** the real-symmetric recurrence `lanczosRat` (request `lanczosrat`) returns exactly the coefficients
+    `lanczosC` returns on the same data embedded into ℚ(i) — so `lanczosC_is_run` covers it too (a real symmetric matrix is Hermitian). -/
+theorem lanczosRat_is_lanczosC (a : List (List Rat)) (v : List Rat) (m : ℕ) :
+    (lanczosRat a v m).alpha = (lanczosC (a.map (fun row => row.map CRat.ofRat)) (v.map CRat.ofRat) m).alpha ∧
+    (lanczosRat a v m).betaSq = (lanczosC (a.map (fun row => row.map CRat.ofRat)) (v.map CRat.ofRat) m).betaSq :=
+  lanczosRat_eq_lanczosC a v m
+
+/-- non-vacuity: the hypotheses of `lanczosC_is_run` hold for `A = [[2, i], [−i, 3]]`, `v = (1, 0)`, `m = 2` (the run of section 7), and the
+    model returns `alpha = (2, 3)`, `betaSq = (1, 0)`; an exact breakdown (`v` an eigenvector of `diag(2, 3)`) returns fewer values -/
+example :
+    let a : List (List CRat) := [[⟨2, 0⟩, ⟨0, 1⟩], [⟨0, -1⟩, ⟨3, 0⟩]]
+    let v : List CRat := [⟨1, 0⟩, ⟨0, 0⟩]
+    a.length = 2 ∧ (∀ row ∈ a, row.length = 2) ∧ v.length = 2 ∧
+    (∀ i j, i < 2 → j < 2 → (a.getD i []).getD j 0 = CRat.conj ((a.getD j []).getD i 0)) ∧
+    (lanczosC a v 2).alpha.length = 2 ∧ (lanczosC a v 2).alpha = [2, 3] ∧ (lanczosC a v 2).betaSq = [1, 0] ∧
+    (lanczosC [[⟨2, 0⟩, ⟨0, 0⟩], [⟨0, 0⟩, ⟨3, 0⟩]] v 2).alpha.length = 1 := by
+  intro a v
+  refine ⟨rfl, by decide +kernel, rfl, ?_, by decide +kernel, by decide +kernel, by decide +kernel, by decide +kernel⟩
+  intro i j hi hj
+  match i, j, hi, hj with
+  | 0, 0, _, _ => decide +kernel
+  | 0, 1, _, _ => decide +kernel
+  | 1, 0, _, _ => decide +kernel
+  | 1, 1, _, _ => decide +kernel
+
+example : (lanczosRat [[2, 1], [1, 3]] [1, 0] 2).alpha =
+    (lanczosC [[⟨2, 0⟩, ⟨1, 0⟩], [⟨1, 0⟩, ⟨3, 0⟩]] [⟨1, 0⟩, ⟨0, 0⟩] 2).alpha := by decide +kernel
+
+end Yaqs.Krylov
+
+
+/-! ## 10. the materialising loop of the driver computes `rightEnvChain` (xp19 extension)
+
+  `Driver/Krylov.lean` answers `rightchain` requests (value tie `heff-right-chain`: every entry of every block of the real
+  `initialize_right_environments`) with `rightBlocksLoop`, which — like numpy — stores each block as a row-major array and computes the
+  next block from what it reads back.  `env_update_assoc` and `heff_hermitian_chain` are about the function-level `rightEnvChain`. -/
+namespace Yaqs.Heff
+
+/-- **C19.10 `rightBlocksLoop_is_rightEnvChain`** (refinement).  For a chain `s :: rest` whose neighbouring bond dimensions match, the first
+    block `rightBlocksLoop` returns is the row-major array of `rightEnvChain` over the sites to the right of `s` (identity boundary), with
+    the shape `initialize_right_environments` gives it, and the remaining blocks are those of the chain `rest` — so, by induction, block `i`
+    is `rightEnvChain` over `sites[i+1:]` for every `i`.  Reading an entry of that array back gives the entry of the function. -/
+theorem rightBlocksLoop_is_rightEnvChain (s : Site CRat) (rest : List (Site CRat)) (hd : ChainDims (s :: rest)) :
+    rightBlocksLoop (s :: rest) =
+      (blockShape s rest,
+        (entries3 (blockShape s rest).1 (blockShape s rest).2.1 (blockShape s rest).2.2
+          (rightEnvChain CRat.conj idEnv rest)).toArray) :: rightBlocksLoop rest ∧
+    (∀ b r B, b < (blockShape s rest).1 → r < (blockShape s rest).2.1 → B < (blockShape s rest).2.2 →
+      ofFlat3 (blockShape s rest).2.1 (blockShape s rest).2.2
+        (entries3 (blockShape s rest).1 (blockShape s rest).2.1 (blockShape s rest).2.2
+          (rightEnvChain CRat.conj idEnv rest)).toArray b r B = rightEnvChain CRat.conj idEnv rest b r B) :=
+  ⟨rightBlocksLoop_spec rest s hd, fun b r B hb hr hB => ofFlat3_entries3 _ _ _ _ b r B hb hr hB⟩
+
+/-- non-vacuity: the two-site chain of section 6 (bond dimensions 1–2–1, MPO bonds 1–2–1) has matching dimensions; the loop returns two
+    blocks, the first of shape `(2, 2, 2)` with a non-zero entry -/
+example :
+    let s1 : Site CRat := ⟨⟨2, 2, 1, 1, 2, 2, 1, 2⟩, fun p a b => ⟨(p + b + 1 : ℕ), (a + b : ℕ)⟩,
+      fun o p _ r => ⟨(o + p + r : ℕ), (o : ℤ) - p⟩⟩
+    let s2 : Site CRat := ⟨⟨2, 2, 2, 2, 1, 1, 2, 1⟩, fun p a b => ⟨(p + 2 * a : ℕ), (1 + b : ℕ)⟩,
+      fun o p l _ => ⟨(o + p + l : ℕ), (p : ℤ) - o⟩⟩
+    ChainDims [s1, s2] ∧ (rightBlocksLoop [s1, s2]).length = 2 ∧ blockShape s1 [s2] = (2, 2, 2) ∧
+    ((rightBlocksLoop [s1, s2]).map fun x => x.2.size) = [8, 1] := by
+  intro s1 s2
+  refine ⟨⟨rfl, rfl, rfl, trivial⟩, ?_, rfl, ?_⟩ <;> decide +kernel
+
+/-- **C19.10 `driver_io_conventions`** the remaining conventions of `Driver/Krylov.lean` for tensors that travel as row-major entry lists:
+    (1) a matrix printed by `entries2` and read back by `ofFlat2` is the same matrix on its index range (as `entries3` / `ofFlat3` above);
+    (2) `ofFlat4` reads `W[i,j,k,m]` at the row-major position `((i·d1 + j)·d2 + k)·d3 + m`, which lies inside an array of `d0·d1·d2·d3` entries;
+    (3) applying a matrix to the one-hot vector of the `onehot:<col>` requests extracts column `col` (numpy's reshape convention is probed
+        by comparing the projector on `e_col` with that column). -/
+theorem driver_io_conventions :
+    (∀ (d0 d1 : ℕ) (t : ℕ → ℕ → CRat) (i j : ℕ), i < d0 → j < d1 → ofFlat2 d1 (entries2 d0 d1 t).toArray i j = t i j) ∧
+    (∀ (d0 d1 d2 d3 : ℕ) (xs : Array CRat) (i j k m : ℕ), i < d0 → j < d1 → k < d2 → m < d3 →
+      ofFlat4 d1 d2 d3 xs i j k m = xs.getD (((i * d1 + j) * d2 + k) * d3 + m) 0 ∧
+      ((i * d1 + j) * d2 + k) * d3 + m < d0 * d1 * d2 * d3) ∧
+    (∀ (n : ℕ) (M : ℕ → ℕ → CRat) (col row : ℕ), col < n → matVec n M (oneHot col) row = M row col) :=
+  ⟨fun d0 d1 t i j hi hj => ofFlat2_entries2 d0 d1 t i j hi hj,
+   fun d0 d1 d2 d3 _ i j k m hi hj hk hm => ⟨rfl, flat4_lt d0 d1 d2 d3 i j k m hi hj hk hm⟩,
+   fun n M col row hc => matVec_oneHot n M col row hc⟩
+
+example : matVec 3 (fun r c => (⟨(r + 2 * c : ℕ), 1⟩ : CRat)) (oneHot 2) 1 = ⟨5, 1⟩ ∧
+    ofFlat2 2 (entries2 2 2 fun i j => (⟨(i : ℕ), (j : ℕ)⟩ : CRat)).toArray 1 0 = ⟨1, 0⟩ := by decide +kernel
+
+end Yaqs.Heff
